@@ -122,6 +122,8 @@ func run(c *kernel.Ctx) {
 			if rc.UTXO {
 				rc.W.KIConflict += 3
 				rc.W.KIDup++
+				rc.W.SpendAll += 2
+				rc.W.Respent++
 			}
 			if rc.ExtRate < 2 {
 				rc.ExtRate = 2
@@ -134,7 +136,13 @@ func run(c *kernel.Ctx) {
 			if h == nil {
 				h = newHistory(e)
 			}
-			switch t.Pick(10, 2, 2) {
+			switch t.Pick(10, 2, 2, 3) {
+			case 3:
+				what := e.WithdrawBlock(t)
+				if what != "" {
+					attacks++
+				}
+				return what
 			case 0:
 				kind := mp.ByzKinds[t.Int(len(mp.ByzKinds))]
 				if what := e.ByzBlock(kind, t); what != "" {
@@ -151,6 +159,10 @@ func run(c *kernel.Ctx) {
 				h2.extend(e, e.W.Chain.BlockStore.Height())
 				if !e.Stopped() {
 					h = h2
+				}
+				// the first block the restarted node is shown is a re-spend
+				if !e.Stopped() && t.Bool(1, 2) {
+					e.ByzBlock(mp.ByzKinds[t.Int(len(mp.ByzKinds))], t)
 				}
 				return "restart"
 			default:
@@ -173,6 +185,28 @@ func run(c *kernel.Ctx) {
 		AfterCommit: func(e *mp.Engine, b *mp.Block) {
 			if h == nil {
 				h = newHistory(e)
+			}
+			// the persistent spent set after the commit: every key image of the
+			// block, on the node and on the replica, whatever else the block held
+			outs := 0
+			for _, tx := range b.Data.Txs {
+				outs += mp.UTXOOutputs(tx)
+			}
+			shape := "with-outputs"
+			if outs == 0 {
+				shape = "no-new-outputs"
+			}
+			for _, tx := range b.Data.Txs {
+				for _, k := range mp.KeyImages(tx) {
+					k := k
+					for _, ch := range []*mp.Chain{e.W.Chain, e.W.Rep} {
+						if !ch.UtxoStore.HaveTxKeyimgAsSpent(&k) {
+							e.Violate("spent-set", "spent-set-incomplete/after-commit/block-"+shape, "block %d (%d transactions, %d new confidential outputs) is committed but key image %x of %x is not in the persistent spent set: a later re-spend of that output would be accepted", b.Height, len(b.Data.Txs), outs, k[:4], tx.Hash().Bytes()[:4])
+							return
+						}
+					}
+					e.C.Evals(1)
+				}
 			}
 		},
 		AfterStep: func(e *mp.Engine) {
